@@ -174,13 +174,53 @@ def streamOf (i : Instr) (v : View) (keys : List Bytes) : Stream :=
 def storages (reg : List Registered) (sc : Scope) (i : Instr) (keys : List Bytes) : List Stream :=
   (findViews reg sc i).map (streamOf i · keys)
 
-/-- what a collection exports for one instrument that recorded one measurement with attribute keys `keys`.
-    `storage_registry_` is keyed by the *instrument* name, so of several storages of one instrument only the one
-    registered last is ever collected (D09). A disabled meter and an invalid name or unit give an inert instrument. -/
+/-- what a collection exports for one instrument (the only one of its name, type and value type in the meter): the
+    stream of every storage built for it — `storage_registry_` has one entry per stream (instrument name, type, value
+    type, position of the view among the views found), so every view that applies yields its own stream, also when two
+    views rename to the same stream name.  A disabled meter and an invalid name or unit give an inert instrument. -/
 def exported (enabled : Bool) (reg : List Registered) (sc : Scope) (i : Instr) (keys : List Bytes) : List Stream :=
+  if !enabled || !validInstrument i.name i.unit then [] else storages reg sc i keys
+
+/-- the registry before the D09 fix: keyed by the instrument name alone, every further storage of an instrument replaced
+    the previous one, so only the storage of the view found last was ever collected -/
+def exportedAsWas (enabled : Bool) (reg : List Registered) (sc : Scope) (i : Instr) (keys : List Bytes) : List Stream :=
   if !enabled || !validInstrument i.name i.unit then []
   else match (storages reg sc i keys).getLast? with
     | some s => [s]
     | none => []
+
+/-! ### the meter's storage registry over a sequence of instrument creations -/
+
+/-- `StorageRegistryKey`: instrument name, type, value type, position of the view among the views found -/
+structure Key where
+  name : Bytes
+  type : IType
+  isDouble : Bool
+  viewIndex : Nat
+  deriving Repr, DecidableEq
+
+/-- a registered storage: its key, the stream it was created for, and the values recorded into it so far -/
+structure Entry where
+  key : Key
+  stream : Stream
+  values : List Nat
+  deriving Repr, DecidableEq
+
+/-- one step of the `FindViews` callback for a handle that then records `value`: a storage registered under the key is
+    reused (the handle records into it), otherwise a new one is created for this view -/
+def attachOrAdd (st : List Entry) (k : Key) (s : Stream) (value : Nat) : List Entry :=
+  if st.any (fun e => decide (e.key = k)) then
+    st.map fun e => if e.key = k then { e with values := e.values ++ [value] } else e
+  else st ++ [⟨k, s, [value]⟩]
+
+def attachAll (st : List Entry) (i : Instr) (isDouble : Bool) (value : Nat) : List (Stream × Nat) → List Entry
+  | [] => st
+  | (s, idx) :: rest => attachAll (attachOrAdd st ⟨i.name, i.type, isDouble, idx⟩ s value) i isDouble value rest
+
+/-- `Create…` of an instrument followed by one measurement `value` through the new handle -/
+def createAndRecord (enabled : Bool) (reg : List Registered) (sc : Scope) (keys : List Bytes) (st : List Entry)
+    (i : Instr) (isDouble : Bool) (value : Nat) : List Entry :=
+  if !enabled || !validInstrument i.name i.unit then st
+  else attachAll st i isDouble value (storages reg sc i keys).zipIdx
 
 end Otel.View
